@@ -83,6 +83,17 @@ CLAIMS['C20'] = dict(
          'numpy percentile / KDE internals).',
     technique=TECH_A, engine='llir', ref='DESIGN.md section 3, C20')
 
+CLAIMS['C15'] = dict(
+    text='With all vertex and point coordinates symbolic, z3/nlsat shows on every feasible path of c_inside (extent computed as the wrapper does) that the '
+         'answer is the parity of the crossing number under the half-open rule, for triangles (quadrilaterals at thorough tier) in any orientation / '
+         'start vertex / with horizontal, vertical, repeated coordinates and points level with a vertex; and, as a loop-body lemma started '
+         'mid-function from an arbitrary state, that one iteration of the edge loop toggles the parity iff that edge is crossed and advances to the '
+         'next vertex - which by induction covers any number of vertices.',
+    note='Assumes the property\'s own precondition in the quantities the algorithm compares (coordinates equal or >1e-6 apart; point off every edge line it '
+         'is level with by 1e-6 relative). Exact reals. Trusts the textbook theorem that the half-open crossing parity is the even-odd interior, and the '
+         'induction step from the lemma. cells_inside_polygon = C07 cell2coord composed with this.',
+    technique=TECH_A, engine='llir', ref='DESIGN.md section 3, C15')
+
 PENDING = 'check not built yet in this session (planned, see DESIGN.md section 3)'
 NOT_APPLICABLE = {
     'C13': 'persistence is carried by numpy tofile/fromfile, dtype objects, zipfile and float repr: no arithmetic core a solver can be given; '
